@@ -636,7 +636,62 @@ impl Driver for C17 {
             for p in &ptrs {
                 p.write().unwrap().layout = None;
             }
-            cx.bulk_states(1, 1);
+            // GDS struct chain s0 -> s1 -> ... listed users-first (deepest recursion)
+            {
+                use gds21::*;
+                let mut g = GdsLibrary::new("lib");
+                g.units = GdsUnits::new(1e-3, 1e-9);
+                for i in 0..n {
+                    let mut s = GdsStruct::new(format!("s{i}"));
+                    if i + 1 < n {
+                        s.elems.push(GdsElement::GdsStructRef(GdsStructRef { name: format!("s{}", i + 1), xy: GdsPoint::new(0, 0), ..Default::default() }));
+                    }
+                    g.structs.push(s);
+                }
+                cx.stats.executions += 1;
+                cx.stats.evaluations += 1;
+                match guard(|| raw::Library::from_gds(&g, None).map(|l| l.cells.iter().map(|p| p.read().unwrap().name.clone()).collect::<Vec<String>>()).map_err(|e| format!("{e:?}"))) {
+                    Ok(Ok(v)) => {
+                        if v.len() == n && (0..n).all(|k| v[k] == format!("s{}", n - 1 - k)) {
+                            cx.outcome("ordered");
+                        } else {
+                            cx.fail("CHAIN", "gds-chain-order", None, || "2000-struct chain not imported dependencies-first".into(), || Value::Null);
+                        }
+                    }
+                    Ok(Err(e)) => cx.fail("CHAIN", "gds-chain-error", None, || format!("2000-struct chain rejected: {}", truncate(&e, 100)), || Value::Null),
+                    Err(p) => cx.fail("CHAIN", "gds-chain-panic", None, || p.short(), || Value::Null),
+                }
+            }
+            // tetris cell chain
+            {
+                use tetris::{cell::Cell, instance::Instance, layout::Layout, outline::Outline};
+                let tp: Vec<Ptr<Cell>> = (0..n).map(|i| Ptr::new(Cell::from(Layout::new(format!("t{i}"), 0, Outline::rect(10, 10).unwrap())))).collect();
+                for i in 0..n - 1 {
+                    let inst = Instance { inst_name: "i".into(), cell: tp[i + 1].clone(), loc: (0, 0).into(), reflect_horiz: false, reflect_vert: false };
+                    tp[i].write().unwrap().layout.as_mut().unwrap().instances.add(inst);
+                }
+                let mut lib = tetris::library::Library::new("tlib");
+                for p in &tp {
+                    lib.cells.push(p.clone());
+                }
+                cx.stats.executions += 1;
+                cx.stats.evaluations += 1;
+                match guard(|| lib.dep_order().map(|v| v.iter().map(|p| p.read().unwrap().name.clone()).collect::<Vec<String>>()).map_err(|e| format!("{e:?}"))) {
+                    Ok(Ok(v)) => {
+                        if v.len() == n && (0..n).all(|k| v[k] == format!("t{}", n - 1 - k)) {
+                            cx.outcome("ordered");
+                        } else {
+                            cx.fail("CHAIN", "tetris-chain-order", None, || "2000-cell chain not ordered dependencies-first".into(), || Value::Null);
+                        }
+                    }
+                    Ok(Err(e)) => cx.fail("CHAIN", "tetris-chain-error", None, || format!("2000-cell chain rejected: {}", truncate(&e, 100)), || Value::Null),
+                    Err(p) => cx.fail("CHAIN", "tetris-chain-panic", None, || p.short(), || Value::Null),
+                }
+                for p in &tp {
+                    p.write().unwrap().layout = None;
+                }
+            }
+            cx.bulk_states(3, 3);
             cx.tag("chain");
             return;
         }
